@@ -103,6 +103,16 @@ def glue_part(chk, classes, which, oracle):
             _wrappers.entry_points(chk, ex, cls, which, found=found)
         except pyexec.Unsupported as e:
             chk.undecided.append(("%s glue" % cls, "unsupported construct in glue: %s" % e))
+    if chk.pid != "C16":
+        # frame precondition of every kernel contract: its array operands do not overlap.  In-memory
+        # tables are fresh allocations; the views of a shared-memory sketch must tile its block
+        from . import C16
+
+        for cls in classes:
+            try:
+                C16.owner_layout(chk, ex, cls, found)
+            except pyexec.Unsupported as e:
+                chk.undecided.append(("%s shared layout" % cls, "unsupported construct in glue: %s" % e))
     chk.assumptions.update(glue.ASSUMED)
     chk.trusted.append("front end B (skv/pyexec.py): symbolic execution of the Python subset, re-parsed from the tree under test every run")
 
